@@ -19,7 +19,10 @@ RULE = ('cases: PyRt.last_day vs calendar.monthrange for every month of 1900..21
         'evaluated by LocalScheduleInterpreter.eval on real LocalScheduleObject instances at entry times, +-1 hundredth, and random '
         'instants, inside and outside the effective period; timer-driven multi-day runs of real objects under the virtual clock '
         '(TZ=UTC) including effective-period entry and exit.  direct only: 6..10 schedule objects in one application with 20..40 '
-        'run-time weeklySchedule rewrites (re-installed timers) sampled every 15 minutes for 3 days; 3 objects run across both '
+        'run-time weeklySchedule rewrites (re-installed timers) sampled every 15 minutes for 3 days; timer-driven histories that begin '
+        'before / inside / after the effective period whose start and end dates carry day-of-week 255 or specific and are otherwise specific, '
+        'open, any-year or any-month, run over the period boundaries and midnights with the object\'s own pure eval as oracle, no exception '
+        'escaping process_task and the task armed at every probe; 3 objects run across both '
         'UTC-offset change days of random years in subprocesses with TZ=EST5EDT,M3.2.0,M11.1.0 and TZ=AEST-10AEDT,M10.1.0,M4.1.0/3, '
         'judged every 15 local minutes by local wall-clock reading (entries before and after the change, none inside 01:00-02:59).  non-trivial = a mask with a set and a clear bit, an evaluation that '
         'is inside the effective period with at least one entry in force, a run with >= 3 firings; distinct by (operation, input).')
@@ -719,8 +722,9 @@ def check_day(cfg, so, d, ts, failures, stats, label):
 
 
 def check_run(cfg, d0, t0, maxfire, failures, stats, attach=None):
-    """a real object driven by its own timer: re-armed after every firing, strictly ahead, never past the
-    next midnight, and showing the prescribed value at every interesting instant inside the effective period"""
+    """a real object driven by its own timer: re-armed after every firing, strictly ahead, and showing the prescribed
+    value at every interesting instant (entry times and midnights of every day up to the next firing) inside the
+    effective period.  Sleeping past a midnight is not by itself an error (weakest reading) - a stale value is."""
     trace, raw = impl_run(cfg, d0, t0, 99, maxfire, attach=attach)
     if trace is None:
         return
@@ -735,16 +739,19 @@ def check_run(cfg, d0, t0, maxfire, failures, stats, attach=None):
             failures.append(dict(base, kind='timer-not-rearmed', firing=i, at=list(from_epoch(fire_at)[0]) + list(from_epoch(fire_at)[1])))
             return
         fd, ft = from_epoch(fire_at)
-        midnight = epoch(fd, (0, 0, 0, 0)) + 86400
-        if not (fire_at < nxt <= midnight):
+        if not (fire_at < nxt):
             failures.append(dict(base, kind='timer-not-ahead', firing=i, at=list(fd) + list(ft), next=list(from_epoch(nxt)[0]) + list(from_epoch(nxt)[1])))
             return
         # the value shown during [fire_at, nxt)
         probes = [fire_at]
-        for t in instants(cfg, None, extra=0):
-            e = epoch(fd, t)
-            if fire_at <= e < nxt:
-                probes.append(e)
+        day0 = epoch(fd, (0, 0, 0, 0))
+        for k in range(0, 15):
+            if day0 + k * 86400 >= nxt:
+                break
+            for t in instants(cfg, None, extra=0):
+                e = day0 + k * 86400 + t[0] * 3600 + t[1] * 60 + t[2] + t[3] / 100.0
+                if fire_at <= e < nxt:
+                    probes.append(e)
         for e in probes:
             pd, pt = from_epoch(e)
             if not spec_ok(cfg, pd):
@@ -827,7 +834,13 @@ def run_scenario(scn, failures, stats):
         for when, j, weekly in scn.get('actions', []):
             actions.setdefault(float(when), []).append((j, weekly))
         stats['scenarios'] = stats.get('scenarios', 0) + 1
-        w.drain()
+        try:
+            w.drain()                                    # the deferred first process_task of every object
+        except Exception as ex:
+            d, t = local_reading(w.now[0])
+            failures.append(dict(base, kind='timer-raises', at=list(d) + list(t), exc=repr(ex)[:200], cfg=objs[0]['cfg'], date=list(d), time=list(t),
+                                 note='exception escaped the first process_task'))
+            return
         e = float(scn['start'])
         while e <= scn['end']:
             guard = 0
@@ -862,15 +875,24 @@ def run_scenario(scn, failures, stats):
                 if not so._task.isScheduled:
                     failures.append(dict(base, kind='timer-not-rearmed', object=k, cfg=cfg, date=list(d), time=list(t), at=list(d) + list(t)))
                     return
-                if not spec_ok(cfg, d):
-                    continue
-                want = spec_eval(cfg, d, t)
+                if scn.get('oracle') == 'eval':
+                    # the pure evaluation of the same object at this date/time (None = outside the effective period)
+                    def pure(tt):
+                        r = so._task.eval(tuple(d), tuple(tt))
+                        return None if r is None else r[0].value
+                else:
+                    if not spec_ok(cfg, d):
+                        continue
+
+                    def pure(tt):
+                        return spec_eval(cfg, d, tt)
+                want = pure(t)
                 if want is None:
                     continue
                 ok = {want}
                 if twice:
                     for mins in (-60, -45, -30, -15, 15, 30, 45, 60):
-                        ok.add(spec_eval(cfg, d, _shift(t, mins)))
+                        ok.add(pure(_shift(t, mins)))
                 stats['nontrivial'].add((base['label'], base['tz'], stats.get('scenarios', 0), k, e))
                 if so.presentValue.value not in ok:
                     failures.append(dict(base, kind='stale-value', object=k, cfg=cfg, date=list(d), time=list(t), at=list(d) + list(t),
@@ -904,6 +926,49 @@ def multi_scenario(rng):
         k = rng.randrange(1, nsteps - 1)
         actions.append([start + k * step, rng.randrange(n), [rand_tvs(rng, rng.randrange(1, 5), True) for _ in range(7)]])
     return {'cfgs': cfgs, 'start': start, 'end': start + nsteps * step, 'step': step, 'actions': actions, 'tz': 'UTC', 'label': 'multi'}
+
+
+def period_histories(rng, n):
+    """timer-driven histories around the edges of the effective period: the interpreter starts before / inside /
+    after the period; start and end dates carry a specific or an unspecified (255) day-of-week octet, the other
+    octets are specific, unspecified, or partly wildcard (raw comparison, whatever eval makes of it); the clock
+    runs over the period boundaries and over midnights.  Oracle: the pure eval of the same object."""
+    out = []
+    for i in range(n):
+        near = rand_date(rng)
+        while not (START + datetime.timedelta(days=40) < near < END - datetime.timedelta(days=40)):
+            near = rand_date(rng)
+        length = rng.choice([0, 1, 2, 3])
+        a, b = near, near + datetime.timedelta(days=length)
+
+        def edge(dt, kind):
+            d = dtuple(dt)
+            if kind == 'dow255':
+                return d[:3] + (255,)
+            if kind == 'dow':
+                return d
+            if kind == 'open':
+                return (255, 255, 255, 255)
+            if kind == 'anyyear':
+                return (255, d[1], d[2], 255)
+            return (d[0], 255, d[2], rng.choice([255, d[3]]))            # any month
+        kinds = ['dow255', 'dow255', 'dow', 'open', 'anyyear', 'anymonth']
+        ks, ke = (('dow255', 'dow255') if i == 0 else ('dow', 'dow') if i == 1 else (rng.choice(kinds), rng.choice(kinds)))
+        eff = (edge(a, ks), edge(b, ke))
+        cfgs = []
+        for j in range(2):
+            cfg = make_distinct(rand_cfg(rng, near, clean=True, whole=True))
+            if j == 0 or cfg['weekly'] is None:
+                cfg['weekly'] = [[((0, 0, 0, 0), 1), ((6, 30, 0, 0), 2), ((12, 0, 0, 0), None), ((18, 15, 0, 0), 3)]] * 7
+            cfg['eff'] = eff
+            cfgs.append(cfg)
+        where = i % 3                                     # begin before / inside / after the period
+        first = a + datetime.timedelta(days={0: -rng.choice([1, 2, 3]), 1: 0, 2: length + 1}[where])
+        t0 = (rng.randrange(24), rng.choice([0, 15, 40]), 0, 0)
+        start = epoch(dtuple(first), t0)
+        out.append({'cfgs': cfgs, 'start': start, 'end': start + (length + 6) * 86400, 'step': 900, 'actions': [], 'tz': 'UTC',
+                    'label': 'period-%s-%s-%s' % (('before', 'inside', 'after')[where], ks, ke), 'oracle': 'eval'})
+    return out
 
 
 def utc_offset(e):
@@ -993,6 +1058,20 @@ def run_dst(seed, tier, failures):
     return tot
 
 
+def _guarded(stage, failures, fn, *a, **k):
+    """an exception inside a stage of the direct check is itself reported as a failure (never a silent abort)"""
+    try:
+        return fn(*a, **k)
+    except Exception as ex:
+        import traceback
+        failures.append({'kind': 'direct-stage-raised', 'stage': stage, 'exc': repr(ex)[:300], 'trace': traceback.format_exc()[-1200:]})
+        try:
+            World.get().reset()
+        except Exception:
+            pass
+        return None
+
+
 def direct(rng, tier, focus=()):
     from bacpypes.local import schedule as S
     World.get()
@@ -1040,7 +1119,7 @@ def direct(rng, tier, focus=()):
             except Exception:
                 pass
     minutes = [(h, m, 0, 0) for h in range(24) for m in range(60)]
-    for cfg, near, label in cfgs:
+    def eval_stage(cfg, near, label):
         so, cleanup = build(cfg)
         try:
             days = [near, near + one, near + datetime.timedelta(days=rng.choice([2, 7, 30]))]
@@ -1050,6 +1129,8 @@ def direct(rng, tier, focus=()):
                     check_day(cfg, so, dtuple(dt), ts, failures, stats, label)
         finally:
             cleanup()
+    for cfg, near, label in cfgs:
+        _guarded('eval-vs-rule', failures, eval_stage, cfg, near, label)
     samples.append({'direct': 'eval-vs-rule', 'schedules': len(cfgs), 'instants_per_day': '1440 minutes + entry times +-0.01 s'})
     # (c) timer-driven runs over effective-period entry and exit
     nruns = 150 if tier == 'thorough' else 30
@@ -1066,11 +1147,18 @@ def direct(rng, tier, focus=()):
         elif mode == 1:    # always effective
             cfg['eff'] = ((255, 255, 255, 255), (255, 255, 255, 255))
         t0 = rand_time(rng, whole=True)
-        check_run(cfg, dtuple(near), t0, 40, failures, stats, attach=(True if i % 4 == 0 else None))
+        _guarded('timer-run', failures, check_run, cfg, dtuple(near), t0, 40, failures, stats, attach=(True if i % 4 == 0 else None))
     samples.append({'direct': 'timer-runs', 'runs': stats['runs'], 'runs_with_3+_firings': stats['long_runs']})
     # (d) several schedule objects in one application, schedules rewritten at run time (re-installed timers)
     for i in range(40 if tier == 'thorough' else 8):
-        run_scenario(multi_scenario(rng), failures, stats)
+        _guarded('multi-object', failures, run_scenario, multi_scenario(rng), failures, stats)
+    # (d') timer-driven histories over the edges of the effective period, oracle = the object's own pure eval
+    nh = 0
+    for scn in period_histories(rng, 90 if tier == 'thorough' else 18):
+        _guarded('period-history', failures, run_scenario, scn, failures, stats)
+        nh += 1
+    samples.append({'direct': 'period-histories', 'histories': nh, 'shapes': 'start before/inside/after the period; edges with dow 255 / specific / open / any-year / any-month',
+                    'sampling': 'every 15 minutes over period length + 6 days'})
     samples.append({'direct': 'multi-object', 'scenarios': stats.get('scenarios', 0), 'objects': '6..10 per application',
                     'sampling': 'every 15 minutes for 3 days, 20..40 weeklySchedule rewrites'})
     # (e) the same judgement by local wall-clock reading in zones whose UTC offset changes, in subprocesses
